@@ -144,6 +144,12 @@ Definition dial_model (cfg : bytes) (k : lkind) (lport : N) : dialed :=
       end
   end.
 
+(* one director instance serves every service and listening port that names it: the
+   connections it dials for, in the order they come.  Dial keeps no state: each target is
+   computed from the configured value and THAT connection's local address *)
+Definition dial_seq (cfg : bytes) (conns : list (lkind * N)) : list dialed :=
+  map (fun c => dial_model cfg (fst c) (snd c)) conns.
+
 (* the configured backend (host, port if the value carries one) of a well-formed
    configuration value: "host:port", "[v6]:port", "host", bare IPv6 *)
 Definition all_digits (l : bytes) : bool := forallb is_digit l.
